@@ -939,6 +939,9 @@ pub fn run_l2(scn: &C10Scenario, stats: &mut RunStats) -> Vec<Violation> {
                 if faulty_pass {
                     for path in std::mem::take(&mut pending_renotify) {
                         let events = apply_op(&fs, &mut watches, &Op::Touch { path }, SaveStyle::InPlace);
+                        if std::env::var_os("VERIF_TRACE").is_some() {
+                            crate::outln!("[t={}] renotify -> {} raw events", now, events.len());
+                        }
                         for e in events {
                             debounce.now = now;
                             debounce.add_event(e, |p| fs.user_exists(&strip_cwd(p)));
